@@ -39,6 +39,8 @@ var (
 	refM2 = pdf.NewReference(14, 0)
 	refS1 = pdf.NewReference(30, 0)
 	refS2 = pdf.NewReference(40, 0)
+	refS3 = pdf.NewReference(44, 0) // body1 behind [/ASCII85Decode /FlateDecode]
+	refS4 = pdf.NewReference(46, 0) // body2 behind [/ASCII85Decode /FlateDecode]
 	refA0 = pdf.NewReference(17, 0) // A0 -> A -> B -> dict
 )
 
@@ -76,6 +78,14 @@ func buildFile() []byte {
 		for i, b := range [][]byte{body1, body2} {
 			ref := []pdf.Reference{refS1, refS2}[i]
 			s, err := w.OpenStream(ref, nil, pdf.FilterFlate{})
+			must(err)
+			_, err = s.Write(b)
+			must(err)
+			must(s.Close())
+		}
+		for i, b := range [][]byte{body1, body2} {
+			ref := []pdf.Reference{refS3, refS4}[i]
+			s, err := w.OpenStream(ref, nil, pdf.FilterASCII85{}, pdf.FilterFlate{})
 			must(err)
 			_, err = s.Write(b)
 			must(err)
@@ -770,6 +780,59 @@ func scenarios() []*scenario {
 				return nil
 			}})
 	}
+	// S8c: the same through a two-layer chain, every thread reading its stream twice (what the
+	// first Close leaves in the pool is what the second round gets)
+	add(&scenario{name: "S8c-chain-flate-readers-twice", threads: 2, serial: true, boundQuick: 2, boundThorough: -1,
+		bodies: func(fx *fixture) []func() {
+			rd := func(tid int, ref pdf.Reference, want []byte) func() {
+				return func() {
+					for round := 0; round < 2; round++ {
+						guard(fx, tid, fmt.Sprintf("stream%d-round%d", tid, round), func() (any, error) {
+							obj, err := fx.r.Get(ref, true)
+							if err != nil {
+								return nil, err
+							}
+							rc, err := pdf.DecodeStream(fx.r, nil, obj.(*pdf.Stream))
+							if err != nil {
+								return nil, err
+							}
+							var got []byte
+							buf := make([]byte, 1500)
+							for {
+								k, err := rc.Read(buf)
+								got = append(got, buf[:k]...)
+								if err == io.EOF {
+									break
+								}
+								if err != nil {
+									return nil, err
+								}
+								fx.yield("between-reads")
+							}
+							if err := rc.Close(); err != nil {
+								return nil, err
+							}
+							if !bytes.Equal(got, want) {
+								return nil, fmt.Errorf("decoded %d bytes differ from the %d written", len(got), len(want))
+							}
+							return "ok", nil
+						})
+					}
+				}
+			}
+			return []func(){rd(0, refS3, body1), rd(1, refS4, body2)}
+		},
+		after: func(fx *fixture) *failure {
+			for _, c := range fx.calls {
+				if c.panic != nil {
+					return &failure{"panic:stream", fmt.Sprint(c.panic)}
+				}
+				if c.err != nil {
+					return &failure{"stream-data-wrong", fmt.Sprintf("thread %d: %s: %v", c.thread, c.what, c.err)}
+				}
+			}
+			return nil
+		}})
 	// S8w: two writers using the pooled zlib writer
 	add(&scenario{name: "S8w-flate-writers", threads: 2, serial: true, boundQuick: 2, boundThorough: -1,
 		bodies: func(fx *fixture) []func() {
